@@ -133,6 +133,8 @@ def tasks(tier, seed, selftest=False):
         # modular networks: a 3-variable component constrained by the solver to have a motif-avoidant attractor,
         # next to an independent switch / source (products are composed from the components' atoms)
         S.append(dict(family="P:MAA3+SW2", skeleton=sk, timebox=40 if q else 900))
+        # a minimal trap space that holds two attractors
+        S.append(dict(family="TWOATT3", skeleton=sk, timebox=6 if q else 300))
         # a motif-avoidant core with a variable downstream of it (nested blocks, the minimal block is not clean)
         S.append(dict(family="MAAD4", skeleton=sk, timebox=12 if q else 600))
         # after a plain prefix (a node expanded by hand / a limited BFS): the strategies that walk the diagram from the
